@@ -1091,8 +1091,16 @@ pub fn generate(rng: &mut Rng, extended: bool, switches: &[&str]) -> Program {
             protected: vec![],
         };
         let mut body = g.nstmts(1, 4, 2);
-        // make sure the result is assigned on the main path
-        let e = g.expr(ret, 2);
+        // make sure the result is assigned on the main path; half of the time from an expression of a narrower type, so that the
+        // value a call yields is the widened one (what a caller then computes with depends on the declared result type)
+        let narrower: Vec<Ty> = ret.sources().into_iter().filter(|s| *s != ret && s.is_numeric() && (!ret.is_real() || s.is_real() || matches!(s, SInt | Int) || (ret == LReal && *s == DInt))).collect();
+        let e = if !narrower.is_empty() && g.rng.bool() {
+            let st = *g.rng.pick(&narrower);
+            g.features.insert("result-widening".into());
+            g.expr_exact(st, 2)
+        } else {
+            g.expr(ret, 2)
+        };
         body.push(Stmt::Assign(Lv::Var(name.clone(), ret), e));
         total_steps += g.steps;
         features = g.features.clone();
